@@ -32,6 +32,7 @@ def run(db, rep, feat, tier):
     r1(db, rep)
     r2(db, rep)
     r3(db, rep)
+    r3b(db, rep)
     idxkind.rule(db, rep, "R4")
     r5 = rep.rule("R5", "K8", "no undischarged panic site is reachable inside dead_code_elimination itself")
     panics.reach_rule(db, rep, r5, [DCE], scope_prefixes=("analysis::dead_code_elimination",), site_allow=SITE_ALLOW)
@@ -42,11 +43,35 @@ def run(db, rep, feat, tier):
     c12.r1_r5(db, rep, cache, trans)
     c12.r2(db, rep, cache)
     c12.r7(db, rep, trans)
+    c12.r6b(db, rep, trans)
+    c12.r9(db, rep)
     for rr in rep.rules[before:]:
         rr.id = "R6." + rr.id
         for i in rr.instances:
             i["key"] = "R6." + i["key"]
             i["rule"] = rr.id
+
+
+def r3b(db, rep):
+    from mirterm import bodies_under
+    from db import mir_calls
+    r = rep.rule("R3b", "K4", "terminal scan: every block without successors contributes a root - its last instruction, or the block "
+                 "itself when it is empty (an empty exit block still receives the definitions that are live out of the function)")
+    inst = empty = 0
+    for d in bodies_under(db, DCE):
+        body = db.mir.get(d)
+        if body is None:
+            continue
+        for b in body["blocks"]:
+            for s_ in b["s"]:
+                v = str(s_.get("rv", {}).get("variant", ""))
+                if v.endswith("RefFunctionLocation::Instruction"):
+                    inst += 1
+                if v.endswith("RefFunctionLocation::EmptyBlock"):
+                    empty += 1
+    r.decide(inst >= 1 and empty >= 1, "roots|empty_terminal_block", db.where(db.mir[DCE]),
+             "the terminal scan builds %d Instruction and %d EmptyBlock locations: terminal blocks without instructions are skipped, "
+             "so definitions that only flow out of the function through such a block are eliminated" % (inst, empty))
 
 
 def r1(db, rep):
